@@ -396,9 +396,9 @@ def decode_aset_image(f):
         return "image is not a well-formed archive"
     d = p.data
     hits = [a for (a, n) in p.labels if n == ACNT]
-    if len(hits) != 1:
-        return "%d AnimClipNameTable labels" % len(hits)
-    t = hits[0]
+    if not hits:
+        return "no AnimClipNameTable label"
+    t = min(hits)          # the format's reading since fix 10408e9: the lowest address carrying the label is the table
     if len(d) < 12 or t + 4 * 257 > len(d):
         return "clip table leaves the data"
     meta = p.strings.get(4)
